@@ -589,5 +589,441 @@ theorem stk_items (fi : FirstInfo) (S : List LRState) (hg : g.Closed) (hs : star
 
 end Items
 
+/-! ### table cells come from items and transitions -/
+
+def CellOK (ga : Grammar) (pm : Bool) (st : LRState) (a : Nat) : Action → Prop
+  | .err => True
+  | .shift s' => (Sym.t a, s') ∈ st.trans
+  | .reduce l al b => ∃ it ∈ st.items, it.dot = (ga.rhs it).length ∧ it.left ≠ ga.numNT - 2 ∧
+      l = it.left ∧ al = it.alt ∧ b = (ga.rhs it).length
+  | .accept => ∃ it ∈ st.items, it.dot = (ga.rhs it).length ∧ it.left = ga.numNT - 2 ∧
+      (it.follow.index = a ∨ pm = true)
+
+def RowOK (ga : Grammar) (pm : Bool) (st : LRState) (row : List Action) : Prop :=
+  ∀ a, CellOK ga pm st a ((row[a]?).getD .err)
+
+def GrowOK (st : LRState) (grow : List Int) : Prop :=
+  ∀ (A : Nat) (j : Int), grow[A]? = some j → 0 ≤ j → (Sym.n A, j.toNat) ∈ st.trans
+
+theorem rowOK_replicate (ga : Grammar) (pm : Bool) (st : LRState) (w : Nat) :
+    RowOK ga pm st (List.replicate w .err) := by
+  intro a
+  have : ((List.replicate w Action.err)[a]?).getD .err = .err := by
+    rw [List.getElem?_replicate]; split <;> rfl
+  rw [this]; trivial
+
+theorem rowOK_set (ga : Grammar) (pm : Bool) (st : LRState) (row : List Action) (t : Nat) (act : Action)
+    (h : RowOK ga pm st row) (hc : CellOK ga pm st t act) : RowOK ga pm st (row.set t act) := by
+  intro a
+  rw [List.getElem?_set]
+  by_cases hta : t = a
+  · subst hta
+    simp only [if_true]
+    split
+    · exact hc
+    · trivial
+  · simp only [hta, if_false]; exact h a
+
+theorem placeShift_ok (ga : Grammar) (pm : Bool) (st : LRState) (state : Nat) (row : List Action)
+    (confs : List Conflict) (t target : Nat) (h : RowOK ga pm st row) (ht : (Sym.t t, target) ∈ st.trans) :
+    RowOK ga pm st (placeShift state row confs t target).1 := by
+  simp only [placeShift]
+  split
+  · exact h
+  · exact rowOK_set ga pm st row t _ h ht
+
+theorem placeRA_ok (ga : Grammar) (pm : Bool) (st : LRState) (state : Nat) (row : List Action)
+    (confs : List Conflict) (t : Nat) (act : Action) (h : RowOK ga pm st row) (hc : CellOK ga pm st t act) :
+    RowOK ga pm st (placeRA state row confs t act).1 := by
+  simp only [placeRA]
+  split
+  · exact h
+  · exact h
+  · exact rowOK_set ga pm st row t _ h hc
+
+def row1F (state : Nat) (acc : List Action × List Int × List Conflict) (p : Sym × Nat) :
+    List Action × List Int × List Conflict :=
+  match p.1 with
+  | .t i =>
+    let (r, c) := placeShift state acc.1 acc.2.2 i p.2
+    (r, acc.2.1, c)
+  | .n k => (acc.1, acc.2.1.set k (p.2 : Int), acc.2.2)
+  | .eps => acc
+
+def row2F (ga : Grammar) (prefixMode : Bool) (eof width state : Nat)
+    (acc : List Action × List Conflict) (it : Item) : List Action × List Conflict :=
+  let size := (ga.rhs it).length
+  if it.dot ≠ size then acc else
+  let act : Action := if it.left = ga.numNT - 2 then .accept else .reduce it.left it.alt size
+  if it.follow.index = eof ∧ prefixMode then
+    (List.range width).foldl (fun a t => placeRA state a.1 a.2 t act) acc
+  else placeRA state acc.1 acc.2 it.follow.index act
+
+theorem fillRow_eq (ga : Grammar) (pm : Bool) (eof width state : Nat) (st : LRState)
+    (confs : List Conflict) :
+    fillRow ga pm eof width state st confs =
+      (let r1 := st.trans.foldl (row1F state)
+        (List.replicate width .err, List.replicate ga.numNT (-1), confs)
+       let r2 := st.items.foldl (row2F ga pm eof width state) (r1.1, r1.2.2)
+       (r2.1, r1.2.1, r2.2)) := rfl
+
+theorem fillRow_ok (ga : Grammar) (pm : Bool) (eof width state : Nat) (st : LRState)
+    (confs : List Conflict) :
+    RowOK ga pm st (fillRow ga pm eof width state st confs).1 ∧
+      GrowOK st (fillRow ga pm eof width state st confs).2.1 := by
+  rw [fillRow_eq]
+  simp only []
+  have h1 : (fun (acc : List Action × List Int × List Conflict) =>
+      RowOK ga pm st acc.1 ∧ GrowOK st acc.2.1)
+      (st.trans.foldl (row1F state)
+        (List.replicate width .err, List.replicate ga.numNT (-1), confs)) := by
+    apply foldl_inv (fun (acc : List Action × List Int × List Conflict) =>
+      RowOK ga pm st acc.1 ∧ GrowOK st acc.2.1)
+    · refine ⟨rowOK_replicate ga pm st width, ?_⟩
+      intro A j hj hpos
+      rw [List.getElem?_replicate] at hj
+      split at hj
+      · cases hj; omega
+      · cases hj
+    · intro acc p hp hacc
+      obtain ⟨X, tgt⟩ := p
+      simp only [row1F]
+      cases X with
+      | eps => exact hacc
+      | t i => exact ⟨placeShift_ok ga pm st state _ _ i tgt hacc.1 hp, hacc.2⟩
+      | n k =>
+        refine ⟨hacc.1, ?_⟩
+        intro A j hj hpos
+        simp only [] at hj
+        rw [List.getElem?_set] at hj
+        by_cases hkA : k = A
+        · subst hkA
+          simp only [if_true] at hj
+          split at hj
+          · cases hj; simpa using hp
+          · cases hj
+        · simp only [hkA, if_false] at hj
+          exact hacc.2 A j hj hpos
+  simp only [] at h1
+  refine ⟨?_, h1.2⟩
+  apply foldl_inv (fun (acc : List Action × List Conflict) => RowOK ga pm st acc.1)
+  · exact h1.1
+  · intro acc it hit hacc
+    simp only [row2F]
+    split
+    · exact hacc
+    · rename_i hdot
+      have hdot' : it.dot = (ga.rhs it).length := by simpa using hdot
+      have hcell : ∀ t, (it.follow.index = t ∨ pm = true) →
+          CellOK ga pm st t (if it.left = ga.numNT - 2 then .accept
+            else .reduce it.left it.alt (ga.rhs it).length) := by
+        intro t ht
+        split
+        · rename_i hl; exact ⟨it, hit, hdot', hl, ht⟩
+        · rename_i hl; exact ⟨it, hit, hdot', hl, rfl, rfl, rfl⟩
+      split
+      · rename_i hpm
+        apply foldl_inv (fun (acc : List Action × List Conflict) => RowOK ga pm st acc.1)
+        · exact hacc
+        · intro acc' t _ hacc'
+          exact placeRA_ok ga pm st state _ _ t _ hacc' (hcell t (Or.inr hpm.2))
+      · exact placeRA_ok ga pm st state _ _ _ _ hacc (hcell _ (Or.inl rfl))
+
+def TabOK (ga : Grammar) (pm : Bool) (S : List LRState) (action : List (List Action))
+    (goto : List (List Int)) : Prop :=
+  (∀ (q : Nat) (row : List Action), action[q]? = some row → ∃ st, S[q]? = some st ∧ RowOK ga pm st row) ∧
+  (∀ (q : Nat) (grow : List Int), goto[q]? = some grow → ∃ st, S[q]? = some st ∧ GrowOK st grow)
+
+def rowsF (ga : Grammar) (pm : Bool) (eof width : Nat)
+    (acc : List (List Action) × List (List Int) × List Conflict) (p : LRState × Nat) :
+    List (List Action) × List (List Int) × List Conflict :=
+  let r := fillRow ga pm eof width p.2 p.1 acc.2.2
+  (acc.1 ++ [r.1], acc.2.1 ++ [r.2.1], r.2.2)
+
+theorem genTables_eq (g : Grammar) (start eof : Nat) (pm : Bool) (fuel : Nat) :
+    genTables g start eof pm fuel =
+      (let ga := g.augment start eof
+       let states := collection ga (firstSets ga) g.numNT eof fuel
+       let res := states.zipIdx.foldl (rowsF ga pm eof (ga.maxTerminal + 1)) ([], [], [])
+       (⟨res.1, res.2.1, res.2.2⟩, states.length)) := rfl
+
+theorem getElem?_snoc {α : Type} (l : List α) (x : α) (q : Nat) (y : α)
+    (h : (l ++ [x])[q]? = some y) : l[q]? = some y ∨ (q = l.length ∧ y = x) := by
+  rw [List.getElem?_append] at h
+  split at h
+  · exact Or.inl h
+  · rename_i hlt
+    cases hk : q - l.length with
+    | zero => rw [hk] at h; simp at h; exact Or.inr ⟨by omega, h.symm⟩
+    | succ k => rw [hk] at h; simp at h
+
+theorem rows_ok (ga : Grammar) (pm : Bool) (eof width : Nat) :
+    ∀ (l pre : List LRState) (acc : List (List Action) × List (List Int) × List Conflict),
+      acc.1.length = pre.length → acc.2.1.length = pre.length →
+      TabOK ga pm (pre ++ l) acc.1 acc.2.1 →
+      TabOK ga pm (pre ++ l) ((l.zipIdx pre.length).foldl (rowsF ga pm eof width) acc).1
+        ((l.zipIdx pre.length).foldl (rowsF ga pm eof width) acc).2.1 := by
+  intro l
+  induction l with
+  | nil => intro pre acc _ _ h; simpa using h
+  | cons x l ih =>
+    intro pre acc h1 h2 hT
+    simp only [List.zipIdx_cons, List.foldl_cons]
+    have hpre : pre ++ x :: l = (pre ++ [x]) ++ l := by simp
+    have hlen : pre.length + 1 = (pre ++ [x]).length := by simp
+    rw [hpre, hlen]
+    have hx : ((pre ++ [x]) ++ l)[pre.length]? = some x := by simp
+    apply ih
+    · simp [rowsF, h1]
+    · simp [rowsF, h2]
+    · rw [← hpre]
+      have hf := fillRow_ok ga pm eof width pre.length x acc.2.2
+      rw [hpre] at hT ⊢
+      constructor
+      · intro q row hq
+        simp only [rowsF] at hq
+        rcases getElem?_snoc _ _ _ _ hq with h | ⟨hq1, hq2⟩
+        · exact hT.1 q row h
+        · rw [hq1, h1, hq2]; exact ⟨x, hx, hf.1⟩
+      · intro q grow hq
+        simp only [rowsF] at hq
+        rcases getElem?_snoc _ _ _ _ hq with h | ⟨hq1, hq2⟩
+        · exact hT.2 q grow h
+        · rw [hq1, h2, hq2]; exact ⟨x, hx, hf.2⟩
+
+theorem genTables_ok (g : Grammar) (start eof : Nat) (pm : Bool) (fuel : Nat) :
+    TabOK (g.augment start eof) pm
+      (collection (g.augment start eof) (firstSets (g.augment start eof)) g.numNT eof fuel)
+      (genTables g start eof pm fuel).1.action (genTables g start eof pm fuel).1.goto := by
+  rw [genTables_eq]
+  simp only []
+  have := rows_ok (g.augment start eof) pm eof ((g.augment start eof).maxTerminal + 1)
+    (collection (g.augment start eof) (firstSets (g.augment start eof)) g.numNT eof fuel) []
+    ([], [], []) rfl rfl ⟨by simp, by simp⟩
+  simpa using this
+
+/-! ## C. the driver -/
+
+theorem roots_ofList (ts : List Tree) : (Forest.ofList ts).roots = ts.map Tree.root := by
+  induction ts with
+  | nil => rfl
+  | cons t ts ih => simp [Forest.ofList, Forest.roots, ih]
+
+theorem yield_ofList (ts : List Tree) : (Forest.ofList ts).yield = (ts.map Tree.yield).flatten := by
+  induction ts with
+  | nil => simp [Forest.ofList, Forest.yield]
+  | cons t ts ih => simp [Forest.ofList, Forest.yield, ih]
+
+theorem valid_ofList (g : Grammar) (ts : List Tree) (h : ∀ t ∈ ts, t.Valid g) :
+    (Forest.ofList ts).Valid g := by
+  induction ts with
+  | nil => simp [Forest.ofList, Forest.Valid]
+  | cons t ts ih =>
+    simp only [Forest.ofList, Forest.Valid]
+    exact ⟨h t (by simp), ih (fun t' ht' => h t' (by simp [ht']))⟩
+
+theorem stk_len {S : List LRState} {q : Nat} {qs : List Nat} {syms : List Sym} (h : Stk S q qs syms) :
+    qs.length = syms.length := by
+  induction h with
+  | base => rfl
+  | push _ _ _ ih => simp [ih]
+
+theorem stk_drop {S : List LRState} {q : Nat} {qs : List Nat} {syms : List Sym} (h : Stk S q qs syms) :
+    ∀ k, k ≤ syms.length → ∃ q' qs', (q :: qs).drop k = q' :: qs' ∧ Stk S q' qs' (syms.drop k) := by
+  induction h with
+  | base => intro k hk; simp at hk; subst hk; exact ⟨0, [], rfl, Stk.base⟩
+  | @push q qs syms st X q' hprev hq hX ih =>
+    intro k hk
+    cases k with
+    | zero => exact ⟨q', q :: qs, rfl, Stk.push hprev hq hX⟩
+    | succ k =>
+      obtain ⟨q'', qs'', h1, h2⟩ := ih k (by simpa using hk)
+      exact ⟨q'', qs'', by simpa using h1, by simpa using h2⟩
+
+section Driver
+variable (g : Grammar) (start eof : Nat) (pm : Bool) (fi : FirstInfo) (S : List LRState) (T : Tables)
+
+theorem driver_sound (hg : g.Closed) (hs : start < g.numNT)
+    (hS : CInv (g.augment start eof) fi (hull (g.augment start eof) fi [⟨g.numNT, 0, 0, .t eof⟩]) S)
+    (hT : TabOK (g.augment start eof) pm S T.action T.goto) (inp : List Nat) (v : Tree) :
+    ∀ (fuel : Nat) (rest : List Nat) (q : Nat) (qs : List Nat) (vals : List Tree) (consumed : List Nat),
+      Stk S q qs (vals.map Tree.root) → (∀ t ∈ vals, t.Valid g) →
+      (vals.reverse.map Tree.yield).flatten = consumed → consumed ++ rest = inp →
+      lrParse T (fun (t : Nat) => t) Tree.leaf nodeAct fuel rest (q :: qs) vals = .accept v →
+      v.Valid g ∧ v.root = .n start ∧
+        ∃ c a r, c ++ a :: r = inp ∧ v.yield = c ∧ (pm = false → a = eof) := by
+  intro fuel
+  induction fuel with
+  | zero => intro rest q qs vals consumed _ _ _ _ h; simp [lrParse] at h
+  | succ fuel ih =>
+    intro rest q qs vals consumed hstk hval hyield hinp h
+    cases rest with
+    | nil => simp [lrParse] at h
+    | cons x xs =>
+      simp only [lrParse] at h
+      cases hrow : T.action[q]? with
+      | none => rw [hrow] at h; simp at h
+      | some row =>
+        rw [hrow] at h
+        simp only [] at h
+        by_cases hlen : row.length ≤ x
+        · simp [hlen] at h
+        · simp only [hlen, if_false] at h
+          obtain ⟨st, hst, hrowok⟩ := hT.1 q row hrow
+          have hcell := hrowok x
+          cases hc : (row[x]?).getD .err with
+          | err => rw [hc] at h; simp at h
+          | shift s' =>
+            rw [hc] at h hcell
+            simp only [] at h
+            refine ih xs s' (q :: qs) (Tree.leaf x :: vals) (consumed ++ [x]) ?_ ?_ ?_ ?_ h
+            · exact Stk.push hstk hst hcell
+            · intro t ht
+              simp only [List.mem_cons] at ht
+              rcases ht with ht | ht
+              · subst ht; trivial
+              · exact hval t ht
+            · rw [← hyield]; simp [Tree.yield]
+            · simp [← hinp]
+          | accept =>
+            rw [hc] at h hcell
+            simp only [] at h
+            obtain ⟨it, hit, hdot, hl, hfol⟩ := hcell
+            have ok := stk_items g start eof fi S hg hs hS hstk st hst it hit
+            have hl' : it.left = g.numNT := by rw [hl, augment_numNT]; omega
+            obtain ⟨_, hrhs, hf⟩ := good_S g start eof hg ok.good hl'
+            have hd1 : it.dot = 1 := by rw [hdot, hrhs]; rfl
+            have hsyms := ok.s1 hl' hd1
+            cases vals with
+            | nil => simp at hsyms
+            | cons v0 vs =>
+              simp only [ParseOut.accept.injEq] at h
+              subst h
+              simp only [List.map_cons, List.cons.injEq, List.map_eq_nil_iff] at hsyms
+              obtain ⟨hroot, hvs⟩ := hsyms
+              subst hvs
+              refine ⟨hval v0 (by simp), hroot, consumed, x, xs, hinp, ?_, ?_⟩
+              · simpa using hyield
+              · intro hpm
+                rcases hfol with hfol | hfol
+                · rw [hf] at hfol; exact hfol.symm
+                · rw [hpm] at hfol; cases hfol
+          | reduce l al beta =>
+            rw [hc] at h hcell
+            simp only [] at h
+            obtain ⟨it, hit, hdot, hlne, rfl, rfl, rfl⟩ := hcell
+            have ok := stk_items g start eof fi S hg hs hS hstk st hst it hit
+            have hleft : it.left < g.numNT := by
+              rcases ok.good.left_ok with h1 | h1
+              · exact h1
+              · exfalso; apply hlne; rw [h1.1, augment_numNT]; omega
+            have hpre := ok.pre
+            rw [hdot, List.take_length] at hpre
+            have hbl : ((g.augment start eof).rhs it).length ≤ vals.length := by
+              have := hpre.length_le
+              simpa using this
+            have hroots : (vals.take ((g.augment start eof).rhs it).length).map Tree.root =
+                ((g.augment start eof).rhs it).reverse := by
+              have := List.prefix_iff_eq_take.mp hpre
+              rw [List.length_reverse, ← List.map_take] at this
+              exact this.symm
+            obtain ⟨sp, rest', hd, hstk'⟩ := stk_drop hstk ((g.augment start eof).rhs it).length
+              (by simpa using hbl)
+            have hcond : ¬ (vals.length < ((g.augment start eof).rhs it).length ∨
+                (q :: qs).length ≤ ((g.augment start eof).rhs it).length) := by
+              have := stk_len hstk
+              simp only [List.length_map] at this
+              simp only [List.length_cons]
+              omega
+            simp only [hcond, if_false] at h
+            rw [hd] at h
+            simp only [] at h
+            cases hgo : (T.goto[sp]?).bind (·[it.left]?) with
+            | none => rw [hgo] at h; simp at h
+            | some j =>
+              rw [hgo] at h
+              simp only [] at h
+              by_cases hj : j < 0
+              · simp [hj] at h
+              · simp only [hj, if_false] at h
+                obtain ⟨grow, hgrow1, hgrow2⟩ := Option.bind_eq_some_iff.mp hgo
+                obtain ⟨stp, hstp, hgrowok⟩ := hT.2 sp grow hgrow1
+                have htr := hgrowok it.left j hgrow2 (by omega)
+                refine ih (x :: xs) j.toNat (sp :: rest')
+                  (nodeAct it.left it.alt (vals.take ((g.augment start eof).rhs it).length) ::
+                    vals.drop ((g.augment start eof).rhs it).length) consumed ?_ ?_ ?_ hinp h
+                · have := Stk.push hstk' hstp htr
+                  simpa [Tree.root, List.map_drop] using this
+                · intro t ht
+                  simp only [List.mem_cons] at ht
+                  rcases ht with ht | ht
+                  · subst ht
+                    refine ⟨?_, ?_⟩
+                    · rw [roots_ofList, List.map_reverse, hroots, List.reverse_reverse,
+                        ← augment_alts_lt g start eof _ hleft]
+                      exact good_rhs_get g start eof ok.good
+                    · apply valid_ofList
+                      intro t' ht'
+                      exact hval t' (List.mem_of_mem_take (List.mem_reverse.mp ht'))
+                  · exact hval t (List.mem_of_mem_drop ht)
+                · have hsplit : vals.reverse = (vals.drop ((g.augment start eof).rhs it).length).reverse ++
+                      (vals.take ((g.augment start eof).rhs it).length).reverse := by
+                    rw [← List.reverse_append, List.take_append_drop]
+                  rw [← hyield, hsplit]
+                  simp [Tree.yield, yield_ofList]
+
+end Driver
+
+/-! ## D. soundness of the generated parser -/
+
+theorem sound_run (g : Grammar) (start eof : Nat) (pm : Bool) (sfuel fuel : Nat) (inp : List Nat)
+    (v : Tree) (hg : g.Closed) (hs : start < g.numNT)
+    (h : lrParseTree (genTables g start eof pm sfuel).1 fuel inp = .accept v) :
+    v.Valid g ∧ v.root = .n start ∧
+      ∃ c a r, c ++ a :: r = inp ∧ v.yield = c ∧ (pm = false → a = eof) := by
+  unfold lrParseTree at h
+  exact driver_sound g start eof pm (firstSets (g.augment start eof))
+    (collection (g.augment start eof) (firstSets (g.augment start eof)) g.numNT eof sfuel)
+    (genTables g start eof pm sfuel).1 hg hs
+    (collection_inv _ _ _ _ _) (genTables_ok g start eof pm sfuel) inp v
+    fuel inp 0 [] [] [] Stk.base (by simp) (by simp) (by simp) h
+
+theorem eq_of_append_eof (eof : Nat) : ∀ (w c r : List Nat), eof ∉ w →
+    c ++ eof :: r = w ++ [eof] → c = w := by
+  intro w
+  induction w with
+  | nil =>
+    intro c r _ h
+    cases c with
+    | nil => rfl
+    | cons y c' => simp at h
+  | cons y w' ih =>
+    intro c r hw h
+    simp only [List.mem_cons, not_or] at hw
+    cases c with
+    | nil =>
+      simp only [List.nil_append, List.cons_append, List.cons.injEq] at h
+      exact absurd h.1 hw.1
+    | cons z c' =>
+      simp only [List.cons_append, List.cons.injEq] at h
+      rw [h.1, ih c' r hw.2 h.2]
+
+theorem sound_full (g : Grammar) (start eof : Nat) (sfuel fuel : Nat) (w : List Nat) (v : Tree)
+    (hg : g.Closed) (hs : start < g.numNT) (hw : eof ∉ w)
+    (h : lrParseTree (genTables g start eof false sfuel).1 fuel (w ++ [eof]) = .accept v) :
+    v.Valid g ∧ v.root = .n start ∧ v.yield = w := by
+  obtain ⟨h1, h2, c, a, r, hc, hy, ha⟩ := sound_run g start eof false sfuel fuel _ v hg hs h
+  refine ⟨h1, h2, ?_⟩
+  rw [ha rfl] at hc
+  rw [hy]
+  exact eq_of_append_eof eof w c r hw hc
+
+theorem sound_prefix (g : Grammar) (start eof : Nat) (sfuel fuel : Nat) (inp : List Nat) (v : Tree)
+    (hg : g.Closed) (hs : start < g.numNT)
+    (h : lrParseTree (genTables g start eof true sfuel).1 fuel inp = .accept v) :
+    v.Valid g ∧ v.root = .n start ∧ v.yield <+: inp := by
+  obtain ⟨h1, h2, c, a, r, hc, hy, _⟩ := sound_run g start eof true sfuel fuel _ v hg hs h
+  exact ⟨h1, h2, ⟨a :: r, by rw [hy]; exact hc⟩⟩
+
 end LRSound
 end Theo
